@@ -88,6 +88,39 @@ func c01BigBulk() []refdb.Doc {
 	return docs
 }
 
+// c01LongBulks: a long ingestion history for ONE index worker — a wide bulk (400 documents, many distinct tokens),
+// 198 one-document bulks, a 40-document bulk, 60 one-document bulks, ten 3-document bulks. State that the write
+// path keeps between bulks (pooled collectors, buffers sized by a rolling window over the last 200 bulks) is
+// re-sized somewhere inside such a history; every acknowledged document must be served whatever that state is.
+func c01LongBulks() [][]refdb.Doc {
+	var res [][]refdb.Doc
+	n := 0
+	mk := func(k int) []refdb.Doc {
+		docs := make([]refdb.Doc, k)
+		for i := range docs {
+			n++
+			docs[i] = refdb.Doc{ID: refdb.ID{MID: uint64(5000 + n/2), RID: uint64(n)}, Body: fmt.Sprintf(`{"long":%d,"p":"%s"}`, n, strings.Repeat(string(rune('a'+n%26)), 5+n%40)),
+				Toks: []refdb.Tok{{F: "u", V: fmt.Sprintf("long%d", n)}, {F: "k", V: "a"}, {F: "s", V: fmt.Sprintf("svc%d", n%7)}}}
+			if k >= 40 {
+				docs[i].Toks = append(docs[i].Toks, refdb.Tok{F: "d", V: fmt.Sprintf("wide-%d-%d", k, i)}, refdb.Tok{F: "p", V: fmt.Sprintf("p%d", n*7919%1000)})
+			}
+		}
+		return docs
+	}
+	res = append(res, mk(400))
+	for i := 0; i < 198; i++ {
+		res = append(res, mk(1))
+	}
+	res = append(res, mk(40))
+	for i := 0; i < 60; i++ {
+		res = append(res, mk(1))
+	}
+	for i := 0; i < 10; i++ {
+		res = append(res, mk(3))
+	}
+	return res
+}
+
 // ---- worker ----
 
 type stageJob struct {
@@ -104,6 +137,9 @@ type stageJob struct {
 	// the documents of these three bulks that are not served correctly.
 	Big       bool `json:"big,omitempty"`
 	BigIngest bool `json:"big_ingest,omitempty"`
+	// Long: the long history (c01LongBulks), LongIngest: this stage ingests it
+	Long       bool `json:"long,omitempty"`
+	LongIngest bool `json:"long_ingest,omitempty"`
 }
 
 type docStatus struct {
@@ -229,6 +265,23 @@ func c01Handle(raw json.RawMessage) any {
 			fm.WaitIdle()
 		}
 		res.Before = c01StatusOf(fm, append(append(c01Bulk(1), c01BigBulk()...), c01Bulk(2)...), true)
+		vos.SetRoot("")
+		return res
+	}
+	if job.Long {
+		var all []refdb.Doc
+		for _, blk := range c01LongBulks() {
+			all = append(all, blk...)
+			if job.LongIngest {
+				d, m := vfrac.BuildBulk(blk, 1)
+				if err := fm.Append(context.Background(), d, m); err != nil {
+					res.LoadErr = "append: " + err.Error()
+					return res
+				}
+			}
+		}
+		fm.WaitIdle()
+		res.Before = c01StatusOf(fm, all, true)
 		vos.SetRoot("")
 		return res
 	}
@@ -441,6 +494,7 @@ func tailStr(s string, n int) string {
 type c01Case struct {
 	Path    []c01Step `json:"path"`
 	Big     bool      `json:"big,omitempty"` // the large-block history (re-run as a whole)
+	Long    bool      `json:"long,omitempty"` // the long history (re-run as a whole)
 	BigStep int       `json:"big_step,omitempty"`
 }
 
@@ -616,6 +670,42 @@ func c01BigHistory(r *vlib.Run, e *c01Explorer) {
 	}
 }
 
+// c01LongHistory: the long ingestion history acknowledged bulk by bulk, then two plain restarts: every document is
+// served after each step.
+func c01LongHistory(r *vlib.Run, e *c01Explorer) {
+	if r.Expired() {
+		return
+	}
+	dir := vfrac.MkTmp("c01long")
+	defer os.RemoveAll(dir)
+	total := 0
+	for _, b := range c01LongBulks() {
+		total += len(b)
+	}
+	for step := 0; step < 3; step++ {
+		var res stageResult
+		jr, err := e.pool.Do(stageJob{Dir: dir, Long: true, LongIngest: step == 0}, &res, 300*time.Second)
+		if err != nil {
+			panic(err)
+		}
+		r.Add("evaluations", 1)
+		r.Add("long_history_steps", 1)
+		c := c01Case{Long: true, BigStep: step}
+		what := []string{"after ingest", "after restart 1", "after restart 2"}[step]
+		switch {
+		case jr.Died || jr.Hung:
+			r.Violation("long history: store-does-not-come-back "+what+" cause="+normCause(firstCause(jr.Stderr)), c, tailStr(jr.Stderr, 1500))
+		case res.LoadErr != "":
+			r.Violation("long history: load-error "+what+" "+normCause(res.LoadErr), c, res.LoadErr)
+		case len(res.Before) > 0:
+			r.Violation(fmt.Sprintf("long history: documents-not-served %s first=%s", what, normCause(res.Before[0].Status)), c, fmt.Sprintf("%d of %d documents are not served, e.g. %+v", len(res.Before), total, res.Before[:min(5, len(res.Before))]))
+		}
+		if jr.Died || jr.Hung || res.LoadErr != "" {
+			break
+		}
+	}
+}
+
 func TestVerifC01(t *testing.T) {
 	r := vlib.NewRun("C01")
 	pool := vlib.NewPool("c01", vlib.Workers())
@@ -623,7 +713,9 @@ func TestVerifC01(t *testing.T) {
 	e := &c01Explorer{r: r, pool: pool, seen: map[string]bool{}}
 	var rc c01Case
 	if r.LoadReplay(&rc) {
-		if rc.Big {
+		if rc.Long {
+			c01LongHistory(r, e)
+		} else if rc.Big {
 			c01BigHistory(r, e)
 		} else {
 			e.replay(rc.Path)
@@ -657,9 +749,10 @@ func TestVerifC01(t *testing.T) {
 	}
 	e.plan = nil
 	c01BigHistory(r, e)
+	c01LongHistory(r, e)
 	ev := r.Get("evaluations")
 	r.Finish(t, "fault_enumeration",
-		fmt.Sprintf("stage plans %v (ingest per stage; last stage verifies only): stage 1 from an empty directory; every crash state of each stage's file-operation journal (Model A: every prefix x every torn length of the in-flight write; Model B: additionally every cut of unsynced tails per file and lost unsynced overwrites), de-duplicated by a canonical hash (fraction ULIDs renamed in creation order), is recovered by the real FracManager.Load in a child process, checked (every document of every bulk: fetch byte-for-byte + findable by each token; acked => present, unacked => wholly present or wholly absent, never-sent => absent), then used as the base of the next stage. Torn lengths: every byte length for the 2-restart plan, stride 16 + header borders for the deeper plan. Plus one large-block history: a 2500-document bulk (a meta block far over 64 KiB) between two small ones, then three plain restarts, one of them after an interrupted start. A subset of stage-1 states is validated against a child that really dies at that journal position (killat_conformance_checked). distinct_nontrivial = distinct (depth, canonical directory, acked set) states recovered", planDesc),
+		fmt.Sprintf("stage plans %v (ingest per stage; last stage verifies only): stage 1 from an empty directory; every crash state of each stage's file-operation journal (Model A: every prefix x every torn length of the in-flight write; Model B: additionally every cut of unsynced tails per file and lost unsynced overwrites), de-duplicated by a canonical hash (fraction ULIDs renamed in creation order), is recovered by the real FracManager.Load in a child process, checked (every document of every bulk: fetch byte-for-byte + findable by each token; acked => present, unacked => wholly present or wholly absent, never-sent => absent), then used as the base of the next stage. Torn lengths: every byte length for the 2-restart plan, stride 16 + header borders for the deeper plan. Plus one large-block history: a 2500-document bulk (a meta block far over 64 KiB) between two small ones, then three plain restarts, one of them after an interrupted start; and one long history: 310 bulks through one index worker (a 400-document bulk, 198 single documents, a 40-document bulk, 60 single documents, ten 3-document bulks), then two plain restarts. A subset of stage-1 states is validated against a child that really dies at that journal position (killat_conformance_checked). distinct_nontrivial = distinct (depth, canonical directory, acked set) states recovered", planDesc),
 		map[string]any{
 			"states":                        r.DistinctCount("nontrivial"),
 			"transitions":                   ev,
